@@ -75,9 +75,12 @@ class SymArray:
     def _norm(self, idx):
         if not isinstance(idx, tuple):
             idx = (idx,)
-        return tuple(sp.sympify(i) for i in idx)
+        return tuple(sp.Symbol(":") if isinstance(i, slice) else sp.sympify(i) for i in idx)
 
     def get(self, idx):
+        raw = idx if isinstance(idx, tuple) else (idx,)
+        if any(isinstance(i, slice) for i in raw):
+            return ArrayView(self, raw)
         idx = self._norm(idx)
         for widx, val in reversed(self.writes):
             if widx == idx:
@@ -96,6 +99,20 @@ class SymArray:
     def set(self, idx, val):
         idx = self._norm(idx)
         self.writes.append((idx, val))
+
+
+class ArrayView:
+    """a[i, :, ...] : remaining axes indexed later"""
+
+    def __init__(self, base, partial):
+        self.base, self.partial = base, partial
+
+    def get(self, idx):
+        idx = list(idx) if isinstance(idx, tuple) else [idx]
+        full = []
+        for p in self.partial:
+            full.append(idx.pop(0) if isinstance(p, slice) else p)
+        return self.base.get(tuple(full + idx))
 
 
 class Obj:
@@ -841,7 +858,7 @@ class Exec:
     def ev_Subscript(self, node, env):
         base = self.ev(node.value, env)
         idx = self.ev_index(node.slice, env)
-        if isinstance(base, SymArray):
+        if isinstance(base, (SymArray, ArrayView)):
             return base.get(idx)
         if isinstance(base, dict):
             k = _hashable(idx)
@@ -1233,11 +1250,15 @@ def _sh_tan(ex, node, x):
 
 
 def _sh_real(ex, node, x):
+    if isinstance(x, (list, tuple)):
+        return [_sh_real(ex, node, v) for v in x]
     x = _num(x)
     return x.re if isinstance(x, Cx) else x
 
 
 def _sh_imag(ex, node, x):
+    if isinstance(x, (list, tuple)):
+        return [_sh_imag(ex, node, v) for v in x]
     x = _num(x)
     return x.im if isinstance(x, Cx) else sp.Integer(0)
 
@@ -1373,6 +1394,15 @@ def _sh_print(ex, node, *a, **k):
     return None
 
 
+_arrn = itertools.count()
+
+
+def _sh_empty(ex, node, shape, dtype=None, **k):
+    shp = tuple(shape) if isinstance(shape, (tuple, list)) else (shape,)
+    cx = dtype is not None and "complex" in str(dtype)
+    return SymArray(f"arr{next(_arrn)}", complex_=cx, shape=shp)
+
+
 def _sh_power(ex, node, a, b):
     return ex.power(_num(a), _num(b), node)
 
@@ -1427,8 +1457,8 @@ _NP = {
     "sin": _sh_sin, "cos": _sh_cos, "tan": _sh_tan, "real": _sh_real, "imag": _sh_imag, "conj": _sh_conj,
     "conjugate": _sh_conj, "pi": T.PI, "sign": _sh_sign, "isnan": _sh_isnan, "power": _sh_power,
     "asarray": _sh_identity, "ascontiguousarray": _sh_identity, "copy": _sh_identity, "ones_like": _sh_ones_like,
-    "zeros_like": _sh_zeros_like, "float64": _sh_float, "complex128": _sh_identity, "maximum": _sh_max, "minimum": _sh_min,
-    "ndarray": "ndarray", "inf": sp.oo, "e": None,
+    "zeros_like": _sh_zeros_like, "float64": _sh_float, "complex128": "complex128", "maximum": _sh_max, "minimum": _sh_min,
+    "ndarray": "ndarray", "inf": sp.oo, "e": None, "empty": _sh_empty, "zeros": _sh_empty, "complex128_t": "complex128",
 }
 NP = Namespace("np", _NP)
 MATH = Namespace("math", {"sqrt": _sh_sqrt, "exp": _sh_exp, "log": _sh_log, "sin": _sh_sin, "cos": _sh_cos, "pi": T.PI,
